@@ -18,6 +18,9 @@
 (***************************************************************************)
 EXTENDS GenTree, IOUtils
 
+(* TLC caches this value only once the search has started: while the initial state is computed  *)
+(* every use re-parses the file, so TInit and the definitions it uses touch the constants a       *)
+(* handful of times only (LET-bound, see Left0 and Canon in GenTree).                             *)
 Rec == ndJsonDeserialize(IOEnv.TRACE)
 Hdr == Rec[1]
 
@@ -36,7 +39,7 @@ IsEv(k) == l <= Len(Rec) /\ Ev.ev = k
 Adv == l' = l + 1
 NoPending == pm = 0
 
-TInit == l = 2 /\ pm = 0 /\ InitWith([p \in TPaths |-> Hdr.st[p]])
+TInit == l = 2 /\ pm = 0 /\ InitWith(Hdr.st)
 
 TSkip ==
     /\ IsEv("skip") /\ NoPending
@@ -105,7 +108,7 @@ TraceAccepted ==
 
 HandledSane == pm # 0 => pm \in handled
 
-TraceOK == Idempotent /\ HandledSane /\ (l = 2 => ConstOK)
+TraceOK == Idempotent /\ HandledSane /\ ConstOK
 
 Some(S) == IF S = {} THEN {} ELSE {CHOOSE x \in S : TRUE}
 
